@@ -222,8 +222,36 @@ def run(chk, replay=None):
                 rows.append([n, q(p.mass), q(p.width), q(pd[mk]), q(pd[wk])])
         if rows:
             records.append({"ev": "Start", "tid": tid, "trs": atrs})
-            records.append({"ev": "Defaults", "tid": tid, "rows": rows, "dups": []})
+            records.append({"ev": "Defaults", "tid": tid, "rows": rows, "dups": [], "missing": []})
             tid += 1
+        # mixed builders on the decays of one resonance (they share the mass and width parameters, one of them has more):
+        # by name the plain Breit-Wigner, then single decays (not the first) the one with form factor; every parameter the
+        # lineshapes use needs a default, whatever the order in which the builder meets them
+        from ampform.dynamics.builder import create_relativistic_breit_wigner
+
+        builder = ampform.get_builder(reaction)
+        decays = [d for d in builder.dynamics if d.parent.id not in reaction.transitions[0].topology.incoming_edge_ids]
+        by_name = {}
+        for d in decays:
+            by_name.setdefault(d.parent.particle.name, []).append(d)
+        mixed = False
+        for n, ds in by_name.items():
+            builder.dynamics.assign(n, create_relativistic_breit_wigner)
+            if len(ds) >= 2:
+                for d in ds[1::2]:
+                    builder.dynamics.assign(d, create_relativistic_breit_wigner_with_ff)
+                mixed = True
+        if mixed:
+            try:
+                model = builder.formulate()
+            except ValueError:
+                model = None
+            if model is not None:
+                known = {k.name for k in model.parameter_defaults} | {k.name for k in model.kinematic_variables}
+                missing = sorted(s_.name for s_ in set().union(*[e.free_symbols for e in model.amplitudes.values()]) if s_.name not in known)
+                records.append({"ev": "Start", "tid": tid, "trs": atrs})
+                records.append({"ev": "Defaults", "tid": tid, "rows": [], "dups": [], "missing": missing})
+                tid += 1
     tv = trace.validate("Trace_Dynamics", records, timeout=3000, heap="8g")
     chk.add_tlc("trace_dynamics", tv.res, traces=tid)
     chk.part("trace", histories=tid, stats=tv.stats, selector_state_comparisons=conform_steps)
